@@ -285,6 +285,8 @@ class Built:
         k = a[0]
         if k == 'val':
             return vs_py(a[1])
+        if k == 'pyval':
+            return a[1]
         if k == 'task':
             return self.tasks[a[1]]
         if k == 'list':
@@ -322,6 +324,8 @@ def arg_coq(a, atoms):
     k = a[0]
     if k == 'val':
         return '(AVal %s)' % canon_coq(canon(vs_py(a[1])), atoms)
+    if k == 'pyval':
+        return '(AVal %s)' % canon_coq(canon(a[1]), atoms)
     if k == 'task':
         return '(ATask %s)' % pos(a[1] + 1)
     if k == 'list':
@@ -382,6 +386,8 @@ def ref_arg(a, val_of):
     k = a[0]
     if k == 'val':
         return vs_py(a[1])
+    if k == 'pyval':
+        return a[1]
     if k == 'task':
         return val_of(a[1])
     if k == 'list':
@@ -835,6 +841,7 @@ class Worker:
         self.hook_state = {}
         self.interrupted = False
         self.kinds = []
+        self.noyield = False
 
 
 class ProxyLock:
@@ -1091,6 +1098,7 @@ class Runtime:
         self.phase_marks = []       # trace index at which each phase starts
         self.fn_log = []            # (trace index, wid, tid, received canon) per function call
         self.alts = []              # per phase, per step: the workers that could have been chosen
+        self.worker_body = None     # replaces the plain execution_loop call of a worker when set
         self.coarse = bool(sc.get('coarse'))   # scheduling points only at store / lock calls, function return and sleep
         self.stopfile = None
 
@@ -1121,6 +1129,8 @@ class Runtime:
     def point(self, w, kind, tid):
         if w.dead:
             raise _Killed()
+        if w.noyield:
+            return          # inside a step that is atomic by construction (loading the jugfile): events are logged, nobody else runs
         if self.coarse and kind in ('start', 'hook_pre', 'hook_exec1'):
             return
         with self.cv:
@@ -1340,8 +1350,11 @@ class Runtime:
         try:
             self.point(w, 'begin', None)
             try:
-                failures = jug.jug.execution_loop(w.tasks, w.options)
-                code = 1 if failures else 0
+                if self.worker_body is not None:
+                    code = self.worker_body(w)          # e.g. the real ExecuteCommand.run (harness/execbarrier.py)
+                else:
+                    failures = jug.jug.execution_loop(w.tasks, w.options)
+                    code = 1 if failures else 0
             except SystemExit as e:
                 code = e.code if type(e.code) == int else (0 if e.code is None else 1)
             except KeyboardInterrupt:
